@@ -977,6 +977,130 @@ func checkStatusIsFailureWhereDataIsExpected(c *Ctx, rule string) {
 		})
 	}
 	c.check(n >= 8, rule, "data requests that can be refused with a STATUS", "?", fmt.Sprintf("%d sites", n), fmt.Sprintf("only %d sites found", n))
+	checkStatusCaseNextToDataCase(c, rule)
+}
+
+// checkStatusCaseNextToDataCase: the same fact decided from the reply switch rather than from the result type.  A
+// switch on the reply's type byte that has a case for a data reply (HANDLE, DATA, NAME, ATTRS, EXTENDED_REPLY) besides
+// the STATUS case is the reply handling of a data request; the error decoded in its STATUS case must not be able to be
+// nil.  With SSH_FX_OK read as success, ReadDir ends the listing early with a nil error, and ReadAt, Read and WriteTo
+// return a short count with a nil error.
+func checkStatusCaseNextToDataCase(c *Ctx, rule string) {
+	p := c.P
+	cv := func(name string) (int64, bool) {
+		k := p.Sftp.Const(name)
+		if k == nil {
+			return 0, false
+		}
+		return constInt(k.Value)
+	}
+	status, ok := cv("sshFxpStatus")
+	if !ok {
+		c.missing(rule, "sshFxpStatus")
+		return
+	}
+	dataTypes := map[int64]string{}
+	for _, nme := range []string{"sshFxpHandle", "sshFxpData", "sshFxpName", "sshFxpAttrs", "sshFxpExtendedReply"} {
+		v, ok := cv(nme)
+		if !ok {
+			c.missing(rule, nme)
+			return
+		}
+		dataTypes[v] = nme
+	}
+	decodesStatus := func(cc *ssa.CallCommon) bool {
+		if calleeName(cc) == "unmarshalStatus" {
+			return true
+		}
+		if f := cc.StaticCallee(); f != nil && inModule(f) && f.Name() != "normaliseError" {
+			found := false
+			eachInstr(f, func(y ssa.Instruction) {
+				if c2 := callOf(y); c2 != nil && calleeName(c2) == "unmarshalStatus" {
+					found = true
+				}
+			})
+			return found
+		}
+		return false
+	}
+	n := 0
+	for _, fn := range p.LibFuncs() {
+		if outermost(fn).Package() != p.Sftp || !isClientSide(fn) {
+			continue
+		}
+		type cmp struct {
+			eq *ssa.BinOp
+			k  int64
+		}
+		groups := map[ssa.Value][]cmp{}
+		eachInstr(fn, func(in ssa.Instruction) {
+			bo, ok := in.(*ssa.BinOp)
+			if !ok || bo.Op != token.EQL {
+				return
+			}
+			x, y := bo.X, bo.Y
+			if _, isC := x.(*ssa.Const); isC {
+				x, y = y, x
+			}
+			k, ok := constInt(y)
+			if !ok {
+				return
+			}
+			groups[x] = append(groups[x], cmp{bo, k})
+		})
+		ord := 0
+		for _, g := range groups {
+			var st *ssa.BinOp
+			want := ""
+			for _, m := range g {
+				if m.k == status {
+					st = m.eq
+				}
+				if nme, ok := dataTypes[m.k]; ok {
+					want = nme
+				}
+			}
+			if st == nil || want == "" {
+				continue
+			}
+			// the true branch of the STATUS comparison
+			var region map[*ssa.BasicBlock]bool
+			for _, ref := range *st.Referrers() {
+				if iff, ok := ref.(*ssa.If); ok && len(iff.Block().Succs) == 2 {
+					region = regionOf(fn, iff.Block().Succs[0])
+				}
+			}
+			if region == nil {
+				continue
+			}
+			for _, b := range fn.Blocks {
+				if !region[b] {
+					continue
+				}
+				for _, in := range b.Instrs {
+					call, ok := in.(*ssa.Call)
+					if !ok || !decodesStatus(&call.Call) {
+						continue
+					}
+					// the error as the function sees it: through normaliseError where the decoder is called directly
+					var e ssa.Value = call
+					if calleeName(&call.Call) == "unmarshalStatus" {
+						for _, ref := range *call.Referrers() {
+							if c2, ok := ref.(*ssa.Call); ok && calleeName(&c2.Call) == "normaliseError" {
+								e = c2
+							}
+						}
+					}
+					n++
+					ord++
+					key := fmt.Sprintf("%s: STATUS case beside the %s case #%d", fnName(fn), want, ord)
+					c.check(p.errNeverNil(e, b, nil, 0), rule, key, p.Pos(call.Pos()), "the decoded status cannot come out as a nil error",
+						"a STATUS reply with code SSH_FX_OK to this data request is read as success: the listing ends early, or the read returns a short count, with a nil error")
+				}
+			}
+		}
+	}
+	c.check(n >= 12, rule, "STATUS cases of data requests", "?", fmt.Sprintf("%d sites", n), fmt.Sprintf("only %d sites found", n))
 }
 
 // checkWorkerCountBounded (C20.Z8): the number of workers of a concurrent transfer sizes channels, pools and the
